@@ -115,6 +115,9 @@ func (env *ExprEnv) callExpr(e *ast.CallExpr) Val {
 			return env.fail("typeis: unknown type %s", exprString(e.Args[1]))
 		}
 		return boolVal(sAnd(sNot(sEq(x.S, "0")), sEq(sApp(t.ifTag(), x.S), sInt(int64(t.eng.tagOf(T))))))
+	case "strof": // string held in an interface value
+		x := arg(0)
+		return Val{K: KStr, S: sApp(t.ifVal(), x.S), T: types.Typ[types.String]}
 	case "cast": // cast(x, *T): view an untyped reference (e.g. a recorded argument) as a pointer of the given type
 		x := arg(0)
 		T := env.resolveType(e.Args[1])
@@ -135,7 +138,7 @@ func (env *ExprEnv) callExpr(e *ast.CallExpr) Val {
 	case "ncalls": // calls made since entry
 		f := arg(0)
 		return intVal("(- " + sApp("select", t.callsArr(env.st), f.S) + " " + sApp("select", t.callsArr(env.callBase), f.S) + ")")
-	case "ret", "retb":
+	case "ret", "retb", "reti":
 		// ret(f, i [, j]): j-th scalar leaf of the result of the i-th call of f since entry
 		f, i := arg(0), arg(1)
 		j := 0
@@ -146,6 +149,9 @@ func (env *ExprEnv) callExpr(e *ast.CallExpr) Val {
 		kind := KInt
 		if fname == "retb" {
 			kind = KBool
+		}
+		if fname == "reti" {
+			return Val{K: KIface, S: t.oretTerm(f.S, k, j, KIface)}
 		}
 		return Val{K: kind, S: t.oretTerm(f.S, k, j, kind), T: types.Typ[types.Int]}
 	case "arg", "argb":
@@ -290,6 +296,24 @@ func (env *ExprEnv) callExpr(e *ast.CallExpr) Val {
 		x := arg(0)
 		return x
 	}
+	if mc, ok := t.eng.con.Macros[fname]; ok {
+		if len(e.Args) != len(mc.Params) {
+			return env.fail("macro %s expects %d arguments", fname, len(mc.Params))
+		}
+		n := *env
+		n.vars = map[string]Val{}
+		for k, v := range env.vars {
+			n.vars[k] = v
+		}
+		for i, p := range mc.Params {
+			n.vars[p] = env.eval(e.Args[i])
+			n.vars["$nofv:"+p] = Val{}
+		}
+		n.pkg = mc.Pkg
+		saved := env.src
+		r := n.evalSrc(mc.Body, mc.Src+" (macro "+fname+" used at "+saved+")")
+		return r
+	}
 	if pf, ok := t.eng.con.Pure[env.pkg+"."+fname]; ok {
 		return env.applyPure(pf, e.Args)
 	}
@@ -375,7 +399,9 @@ func (env *ExprEnv) quant(kind string, e *ast.CallExpr) Val {
 	if len(pending) > 0 {
 		return env.fail("quantified variable without type")
 	}
+	env.t.quantDepth++
 	body := n.eval(e.Args[1])
+	env.t.quantDepth--
 	q := "forall"
 	if kind == "exists_" {
 		q = "exists"
